@@ -109,9 +109,9 @@ def run(chk, replay=None):
             K = cmds.klass(cls)
             opt = [n for n in optional_args(K) if n not in req]
             subsets = list(itertools.chain.from_iterable(itertools.combinations(opt, k) for k in range(len(opt) + 1)))
-            if len(subsets) > (24 if chk.quick else 300):
+            if len(subsets) > (24 if chk.quick else 800):
                 keep = [s for s in subsets if len(s) <= 1 or len(s) == len(opt)]
-                subsets = keep + rng.sample(subsets, (24 if chk.quick else 300) - min(len(keep), 20))
+                subsets = keep + rng.sample(subsets, (24 if chk.quick else 800) - min(len(keep), 20))
             for setname in sets[cls]:
                 table = getattr(ec, setname)
                 if cmds.opcode(cls, setname) is None:
@@ -306,7 +306,7 @@ def run(chk, replay=None):
                       "(Trace_Command), cmd.result = parse of what the device wrote (Trace_Data), also for a repeated call after "
                       "the caller edited the first result and for byte-identical answers decoded under different "
                       "arguments (INQUIRY evpd 0 / 1). distinct by (method, "
-                      "set, keyword subset)." % (len(METHODS) + 3, 24 if chk.quick else 300))
+                      "set, keyword subset)." % (len(METHODS) + 3, 24 if chk.quick else 800))
 
 
 if __name__ == "__main__":
